@@ -122,6 +122,7 @@ class Run:
         from harness import validate
         batch = list(traces)
         corrupted = {}
+        src = {}
         if selftest:
             nid = max([t['id'] for t in traces] + [0]) + 1000
             for t in traces:
@@ -140,6 +141,7 @@ class Run:
                         else:
                             ce['res'] = 'exc'
                         corrupted[nid] = k + 1
+                        src[nid] = t['id']
                         batch.append(c)
                         nid += 1
                         break
@@ -151,6 +153,9 @@ class Run:
             return
         for cid, pos in corrupted.items():
             v = res.get(cid)
+            o = res.get(src[cid])
+            if o is not None and o['status'] == 'rejected' and o['pos'] <= pos:
+                continue            # the recorded trace itself is rejected earlier (reported below as a divergence)
             if v is None or v['status'] != 'rejected' or v['pos'] != pos:
                 raise tlc.MachineryError('binding self-test failed: corrupted trace %s not rejected at event %s: %s'
                                          % (cid, pos, v))
@@ -194,6 +199,7 @@ class Run:
         from harness import validate
         batch = list(traces)
         corrupted = {}
+        src = {}
         if selftest:
             nid = max([t['id'] for t in traces] + [0]) + 1000
             for t in traces:
@@ -227,6 +233,7 @@ class Run:
                         c['id'] = nid
                         c['events'] = c['events'][:k + 1]
                         corrupted[nid] = k + 1
+                        src[nid] = t['id']
                         batch.append(c)
                         nid += 1
                         break
@@ -238,6 +245,9 @@ class Run:
             return
         for cid, pos in corrupted.items():
             v = res.get(cid)
+            o = res.get(src[cid])
+            if o is not None and o['status'] == 'rejected' and o['pos'] <= pos:
+                continue            # the recorded trace itself is rejected earlier (reported below as a divergence)
             if v is None or v['status'] != 'rejected' or v['pos'] != pos:
                 raise tlc.MachineryError('binding self-test failed: corrupted graph trace %s not rejected at event %s: %s'
                                          % (cid, pos, v))
